@@ -523,11 +523,18 @@ func projection(ctx *core.Ctx, progs []*dsl.Program, kind wire.FKind, rule strin
 		if kind == wire.KChecksum || kind == wire.KLenOf {
 			offEncChecks(ctx, pc, cc, st, int(kind))
 		}
+		if kind == wire.KMatch {
+			reuseChecks(ctx, pc, cc, st)
+		}
 	})
 	if kind == wire.KMatch {
 		unmappedChecks(ctx, cases, langs, st)
 	}
 	cov := st.coverage(rule, cases)
+	if kind == wire.KMatch {
+		cov["reused_object_evaluations"] = st.reuseEvals
+		cov["reused_object_rule"] = "every ordered pair of messages carrying different alternatives (<= 12 per case) decoded one after the other into ONE object, and (message, unmapped key): the match member must hold the second key's packet / the decode must fail; Rust constructs a value per decode (nothing to reuse)"
+	}
 	if kind == wire.KChecksum {
 		nseq := 0
 		for _, pc := range cases {
@@ -769,7 +776,12 @@ func matchPrograms() []*dsl.Program {
 	mk("one-max-key-i64", dsl.Root("Msg", dsl.Sc("i64", "Kind"), dsl.Mt("Kind", "Body", dsl.K("Alpha", "1"), dsl.K("Beta", "9223372036854775807"), dsl.K("Gamma", "3"))))
 	mk("one-max-key-u32", dsl.Root("Msg", dsl.Sc("u32", "Kind"), dsl.Mt("Kind", "Body", dsl.K("Alpha", "1"), dsl.K("Beta", "4294967295"), dsl.K("Gamma", "3"))))
 	mk("case-keys", dsl.Root("Msg", dsl.Ds("Kind"), dsl.Mt("Kind", "Body", dsl.K("Alpha", `"ab"`), dsl.K("Beta", `"AB"`), dsl.K("Gamma", `"Ab"`))))
-	mk("leading-zero-keys", dsl.Root("Msg", dsl.Sc("u16", "Kind"), dsl.Mt("Kind", "Body", dsl.K("Alpha", "7"), dsl.K("Beta", "10"), dsl.K("Gamma", "100"))))
+	mk("decimal-keys-7-10-100", dsl.Root("Msg", dsl.Sc("u16", "Kind"), dsl.Mt("Kind", "Body", dsl.K("Alpha", "7"), dsl.K("Beta", "10"), dsl.K("Gamma", "100"))))
+	// keys written with leading zeros are decimal numbers like any other (DIGITS)
+	mk("leading-zero-keys", dsl.Root("Msg", dsl.Sc("u16", "Kind"), dsl.Mt("Kind", "Body", dsl.K("Alpha", "001"), dsl.K("Beta", "010"), dsl.K("Gamma", "8", "0100"))))
+	// the first alternative is the empty packet (whatever picks "the first alternative" as its sample meets it)
+	mk("empty-first", dsl.Root("Msg", dsl.Sc("u8", "Kind"), dsl.Mt("Kind", "Body", dsl.K("Empty", "0"), dsl.K("Alpha", "1"), dsl.K("Beta", "2"))))
+	mk("empty-first-list", dsl.Root("Msg", dsl.Sc("u16", "Kind"), dsl.Mt("Kind", "Body", dsl.K("Empty", "3", "4"), dsl.K("Gamma", "5")), dsl.Sc("u8", "After")))
 	mk("string-list-6", dsl.Root("Msg", dsl.Ds("Kind"), dsl.Mt("Kind", "Body", dsl.K("Alpha", `"A"`, `"B"`, `"C"`, `"D"`, `"E"`, `"F"`), dsl.K("Beta", `"G"`), dsl.K("Empty", `"H"`))))
 	mk("zchar-key", dsl.Root("Msg", dsl.Zc(4, "Kind"), dsl.Mt("Kind", "Body", dsl.K("Alpha", `"AB"`), dsl.K("Beta", `"CDEF"`))))
 	mk("payload-then-fields", dsl.Root("Msg", dsl.Sc("u8", "Kind"), dsl.Mt("Kind", "Body", dsl.K("Alpha", "1"), dsl.K("Empty", "2"), dsl.K("Gamma", "3")), dsl.Sc("u32", "After"), dsl.Rep(dsl.Ds("Notes"))))
@@ -810,6 +822,10 @@ func checksumPrograms() []*dsl.Program {
 		mk("inline-only-"+t, dsl.Root("Msg", dsl.Sc("u32", "Seq"), dsl.Ds("Text"), dsl.In("Inner", dsl.Sc("u8", "X"), dsl.Ck(t, "Sum", "SUM"+strings.ToUpper(t)), dsl.Sc("u8", "Y"))))
 	}
 	mk("inline-in-inline-only", dsl.Root("Msg", dsl.Sc("u16", "Seq"), dsl.In("Outer", dsl.Ds("Text"), dsl.In("Inner", dsl.Sc("u8", "X"), dsl.Ck("u32", "Sum", "SUMU32")))))
+	// one algorithm name on fields of different widths (an attribute shared per name would give them one width)
+	mk("shared-name-unregistered", dsl.Root("Msg", dsl.Ck("u32", "SumA", "NOSUCHX"), dsl.Sc("u8", "A"), dsl.Ck("u8", "SumB", "NOSUCHX"), dsl.Ck("u16", "SumC", "NOSUCHX"), dsl.Sc("u8", "B"), dsl.Ob("Other", "")),
+		dsl.Pk("Other", dsl.Ck("u64", "SumD", "NOSUCHX")))
+	mk("shared-name-two-packets", dsl.Root("Msg", dsl.Sc("u8", "A"), dsl.Ck("u32", "Sum", "CRC32"), dsl.Ob("Other", "")), dsl.Pk("Other", dsl.Sc("u16", "B"), dsl.Ck("u32", "Sum", "CRC32")))
 	mk("inline-only-unregistered", dsl.Root("Msg", dsl.Sc("u32", "Seq"), dsl.In("Inner", dsl.Sc("u8", "X"), dsl.Ck("u16", "Sum", "NOSUCHU16"))))
 	return out
 }
